@@ -129,12 +129,12 @@ def mflS (e : MflEntry) : Sexp :=
 
 def handle (req : Sexp) : Sexp :=
   match req with
-  | .list [.atom "step", r, s] =>
-    match reqOf? r, fvOf? s with
-    | some r, some s =>
-      let o := setFV r s
-      .list [outcomeS o, Sexp.ofBool (Allowed r s o), defectS (defectOf r s), reqS (undo r s), Sexp.ofBool (additive r s)]
-    | _, _ => bad
+  | .list [.atom "step", r, s, mdt] =>
+    match reqOf? r, fvOf? s, mdt.asBool? with
+    | some r, some s, some mdt =>
+      let o := setFV ⟨mdt⟩ r s
+      .list [outcomeS o, Sexp.ofBool (Allowed r s o), defectS (defectOf ⟨mdt⟩ r s), reqS (undo r s), Sexp.ofBool (additive r s)]
+    | _, _, _ => bad
   | .list [.atom "canon", s] =>
     match fvOf? s with
     | some s => stateS (canon s)
